@@ -47,6 +47,12 @@ CHECKS = {
         text="For each of ~350 (quick) / 5000 (thorough) generated pairs of a struct type and a predicate, the real filter narrowing is run and the solver searches all rows of the type (2^64-2^192, NULLs included) for one that satisfies the predicate and is missing from the narrowed type. Types and predicates are generated (bounded, seeded); rows are symbolic.",
         note="Trusted: lib/exprsem.py dispatch model over MIR-translated kernels (SQL NULL semantics); every counterexample is re-evaluated by SQLite on the library's own SQL rendering and by the real contains.",
         design="3 C10"),
+    "C06": dict(
+        level="model_checking", engine="M kernels + expression evaluator + driver",
+        technique="SMT (bit-vectors + IEEE doubles; non-linear integer arithmetic for the hull lemmas; reals for aggregates): real super_image results on a grid of argument types / generated expression trees vs. every point of the argument box evaluated with the MIR-translated kernels; hull-of-corners lemmas with symbolic boxes; aggregates over lists of <= 3 symbolic elements",
+        text="For the supported core (arithmetic, comparison, boolean, rounding, cast, CASE/COALESCE/IS NULL/IN, sum/mean/min/max/count/first/last/var/std) the real range propagation is run on ~1000 (quick) typed argument boxes and expression trees and the solver searches each whole box (up to 2^192 points, NULL flags included) for a value outside the propagated range; integer kernels are additionally checked against the hull of their corner values for symbolic boxes. Types and expression shapes are a grid (stated); points are symbolic.",
+        note="Trusted: dispatch / NULL model of Expr::value (lib/exprsem.py) - each counterexample is replayed with the real Expr::value and contains; aggregate definitions restated from function.rs. Outside: text/date/regex functions, transcendental kernels (uninterpreted), inputs on which a kernel panics (C18), integers beyond 2^53 meeting floats (known finding).",
+        design="3 C06"),
 }
 
 NOT_APPLICABLE = {
@@ -59,7 +65,6 @@ NOT_YET = {
     "C03": "not built yet",
     "C04": "not built yet",
     "C05": "not built yet",
-    "C06": "not built yet",
     "C07": "not built yet",
     "C08": "not built yet (stretch goal; two SQL front ends)",
     "C09": "not built yet",
